@@ -1289,7 +1289,7 @@ Qed.
 Lemma finalise_obj_other D p y o x : x <> y -> agree_at x p (finalise_obj D p (y, o)).
 Proof.
   intros Hne. unfold finalise_obj. destruct (o_suic o || _).
-  - split; simpl; [rewrite lookup_delete_ne by done; reflexivity|]. split; reflexivity.
+  - split; simpl; [rewrite lookup_delete_ne by done; reflexivity|]. split; [rewrite lookup_insert_ne by done; reflexivity|reflexivity].
   - destruct (bool_decide _); [|apply agree_refl].
     destruct (commit_state_frame y o p) as (F1 & F2 & F3). split; simpl.
     + rewrite lookup_insert_ne by done. rewrite F1. reflexivity.
@@ -1400,9 +1400,9 @@ Proof.
     pose proof Hx as (Ab & An & Ah & As & Hst & Hcm & HD & HO & Hcan).
     destruct (fin_fold_present D x o (a_objs a) p i (WOl_uniq _ _ HW) Hoi) as (p0 & A0 & A1). fold p' in A1.
     assert (In (x, o) (a_objs a)) as Hin by (apply elem_of_list_In; eapply elem_of_list_lookup_2; eauto).
-    assert (doomed a (x, o) && (negb (pbal p x =? 0) || has_slots p x) = false) as Hres.
-    { simpl in Htr. destruct (doomed a (x, o) && (negb (pbal p x =? 0) || has_slots p x)) eqn:E; [|reflexivity].
-      assert (existsb (fun xo => doomed a xo && (negb (pbal (a_pers a) xo.1 =? 0) || has_slots (a_pers a) xo.1)) (a_objs a) = true) as Hc; [|congruence].
+    assert (doomed a (x, o) && (negb (o_bal o =? 0) || has_slots p x) = false) as Hres.
+    { simpl in Htr. destruct (doomed a (x, o) && (negb (o_bal o =? 0) || has_slots p x)) eqn:E; [|reflexivity].
+      assert (existsb (fun xo => doomed a xo && (negb (o_bal xo.2 =? 0) || has_slots (a_pers a) xo.1)) (a_objs a) = true) as Hc; [|congruence].
       apply existsb_exists. exists (x, o). split; [exact Hin|exact E]. }
     assert ((if bool_decide (is_Some (D !! x)) then doomed a (x, o) || slots_cachedb o
              else obj_cleanb p x o) = true) as Hok.
@@ -1416,8 +1416,8 @@ Proof.
       pose proof (has_slots_false _ _ Hs) as Hz.
       assert (load p' x = None) as Hld.
       { rewrite (agree_load _ _ _ A1). unfold load; simpl. rewrite lookup_delete.
-        assert (pbal {| p_keeper := delete x (p_keeper p0); p_bal := p_bal p0; p_cstore := p_cstore p0; p_codes := p_codes p0 |} x = 0) as ->; [|reflexivity].
-        unfold pbal; simpl. fold (pbal p0 x). rewrite (pbal_agree _ _ _ A0). exact Hb. }
+        assert (pbal {| p_keeper := delete x (p_keeper p0); p_bal := <[x := o_bal o]> (p_bal p0); p_cstore := p_cstore p0; p_codes := p_codes p0 |} x = 0) as ->; [|reflexivity].
+        unfold pbal; simpl. rewrite lookup_insert. simpl. exact Hb. }
       rewrite Hld. split; [|split; [|intros o' Hc; done]].
       * assert (suic ac || acct_empty ac = true) as ->; [|exact I].
         rewrite <- As, Hemp. destruct (o_suic o); [reflexivity|]. simpl in *.
@@ -1522,6 +1522,35 @@ Proof.
   apply (inv_finalise a s true); try assumption; reflexivity.
 Qed.
 
+Lemma sim_CreateAccount a s x : Inv a s -> a_exists a x = false -> simo a s (CreateAccount x).
+Proof.
+  intros HI Hex.
+  assert (a_oidx a !! x = None /\ load (a_pers a) x = None) as [Hix Hld].
+  { unfold a_exists in Hex. destruct (a_oidx a !! x); [done|]. destruct (load (a_pers a) x); [done|]. done. }
+  assert (look a x = None) as Hlx by (unfold look; rewrite Hix; exact Hld).
+  assert (get_obj a x = Some (a, None)) as Hgo by (unfold get_obj; rewrite Hix, Hld; reflexivity).
+  destruct (get_or_new_spec a x (i_wo _ _ HI) (i_jok _ _ HI)) as (a1 & o & new & Hg & HW1 & HJ1 & Hl1 & Hoth & He1 & Hf1 & Hcase).
+  destruct Hcase as [[Hc _]|(_ & _ & -> & ->)]; [congruence|].
+  (* CreateAccount on a non-existent account is exactly the creation branch of GetOrNewStateObject *)
+  unfold get_or_new_obj in Hg. rewrite Hgo in Hg. simpl in Hg.
+  pose proof (proj1 (i_crel _ _ HI) x) as Hx. rewrite Hlx in Hx. unfold orel in Hx.
+  destruct (accts (cur s) !! x) as [ac|] eqn:Hac; [done|].
+  unfold simo. simpl.
+  destruct (create_obj a x) as [[[a2 o2] prev]|] eqn:Hco; simpl in Hg; [|done].
+  inversion Hg; subst a2 o2.
+  assert (prev = None) as ->.
+  { unfold create_obj in Hco. rewrite Hgo in Hco. simpl in Hco.
+    destruct (j_append a (ECreate x)) as [a3|]; simpl in Hco; [|done].
+    destruct (set_obj a3 x _); simpl in Hco; [|done]. inversion Hco. reflexivity. }
+  simpl. rewrite Hac.
+  eexists _, _, _. split; [reflexivity|]. split; [reflexivity|].
+  eapply (fin_rel a s x a1 a1 [ECreate x] [] (new_acct 0) (new_acct 0) (mk_obj 0 0 0%N) HI); eauto.
+  - intros y. destruct (decide (x = y)) as [<-|]; [exact Hl1|reflexivity].
+  - rewrite app_nil_r. reflexivity.
+  - repeat split.
+  - apply arel_new; [exact (i_nr _ _ HI)|exact Hld].
+Qed.
+
 (* ---- every operation of the proved core, every sequence, every client ---------------------- *)
 Lemma step_ok_pre a o : step_ok a o = true -> pre_violated a o = false.
 Proof.
@@ -1531,9 +1560,11 @@ Qed.
 
 Lemma step_sim a s o : Inv a s -> pstep_ok a o = true -> sim a s o.
 Proof.
-  intros HI Hok. unfold pstep_ok in Hok. apply andb_prop in Hok. destruct Hok as [Hok Hfine].
+  intros HI Hok. unfold pstep_ok in Hok. apply andb_prop in Hok. destruct Hok as [Hok Hfresh].
+  apply andb_prop in Hok. destruct Hok as [Hok Hfine].
   apply andb_prop in Hok. destruct Hok as [Hok Hcore]. pose proof Hok as Hsok. apply step_ok_pre in Hok.
   destruct o; simpl in Hcore; try done.
+  - apply simo_sim, sim_CreateAccount; [assumption|]. simpl in Hfresh. apply negb_true_iff. exact Hfresh.
   - apply simo_sim, sim_SubBalance; assumption.
   - apply simo_sim, sim_AddBalance; assumption.
   - apply simo_sim, sim_GetBalance; assumption.
